@@ -115,17 +115,21 @@ func Assume(c bool) {
 	}
 }
 
+// Assert records a failed assertion and reports it at once: a harness that hangs or crashes
+// afterwards (a lock left held makes the follow-up command block) must still show it.
 func Assert(id string, c bool) {
 	if !c {
 		mu.Lock()
 		Failed = append(Failed, id)
 		mu.Unlock()
+		fmt.Printf("VERIF-ASSERT-FAIL %s\n", id)
 	}
 }
 func Fail(id, msg string) {
 	mu.Lock()
 	Failed = append(Failed, id+" "+msg)
 	mu.Unlock()
+	fmt.Printf("VERIF-ASSERT-FAIL %s %s\n", id, msg)
 }
 func Reach(label string) {
 	mu.Lock()
